@@ -1,4 +1,5 @@
 import PoxModel.Proofs.Framing
+import PoxModel.Proofs.Contain
 /-! # C02 — message framing is independent of how the byte stream is segmented
 
 Property theorems only (helper lemmas live in `Proofs/Framing.lean`).  `ctlFeed U 8` is the controller-side
@@ -67,6 +68,20 @@ theorem slice_framing (es : List Bytes) (chunks : List Bytes) (hh : ∀ e ∈ es
   have s := sw_framing sliceU (es.map (fun e => (e, e))) chunks (fun p hp => (hwf p hp).toSWF) hs
   simp only [List.map_map, Function.comp_def, List.map_id'] at c s
   exact ⟨c.1, c.2.1, s.1, s.2.1⟩
+
+/-- **ctl_feed_no_disconnect**: the assumption "message handlers do not disconnect the connection in the middle of a
+read" stated inside Lean — the controller read path WITH the `disconnected` test (what the code has) is, for handlers that
+never disconnect, exactly the `ctlFeed` that `ctl_framing` / `ctl_prefix` are about; so those theorems are about the
+real loop for every history of well-formed messages whose handlers leave the connection up. -/
+theorem ctl_feed_no_disconnect {Msg : Type} (U : Unpack Msg) (s : CS Msg) (c : Bytes) :
+    ctlFeedD U (fun _ => false) 8 s c = ctlFeed U 8 s c := by
+  unfold ctlFeedD ctlFeed
+  have hany : s.delivered.any (fun _ => false) = false := by
+    induction s.delivered with
+    | nil => rfl
+    | cons a l ih => simp [List.any_cons, ih]
+  cases s.st <;> simp only []
+  rw [hany, ctlLoopD_never]
 
 /-- non-vacuity: an OFPT_HELLO and an 12-byte echo request satisfy `Hdr`; a 3-chunk segmentation with a cut inside
     each header delivers both. -/
